@@ -149,7 +149,17 @@ def mutate(rng, role, msgs, which):
         elif which == "truncate":
             raw = b"".join(m.raw for m in msgs)
             cut = rng.randrange(len(raw) + 1)
-            return [M(raw[:cut], "truncated")], which
+            # keep the complete messages (with their extension verdict flags), then the cut-off piece
+            kept, pos = [], 0
+            for m in msgs:
+                if pos + len(m.raw) <= cut:
+                    kept.append(m)
+                    pos += len(m.raw)
+                else:
+                    break
+            if pos < cut:
+                kept.append(M(raw[pos:cut], "truncated"))
+            return kept, which
         if ins is not None:
             msgs.insert(k + 1, ins)
     return msgs, which
@@ -295,7 +305,16 @@ def hand_cases(rng, tier="quick"):
         whole.append(M(msg(9, b"\x1a\xe1"), "port"))
         raw = b"".join(m.raw for m in whole)
         for cut in sorted(set([0, 1, 4, 5, 6, 9, 13, 14, 20, 31, 40, 41, 60, len(raw) - 1, len(raw)] + [rng.randrange(len(raw)) for _ in range(4)])):
-            out.append(make_case(rng, role, [M(raw[:cut], "truncated")], eof=1, nseg=3, enc=1 if cut % 2 else 0))
+            kept, pos = [], 0
+            for m in whole:
+                if pos + len(m.raw) <= cut:
+                    kept.append(m)
+                    pos += len(m.raw)
+                else:
+                    break
+            if pos < cut:
+                kept.append(M(raw[pos:cut], "truncated"))
+            out.append(make_case(rng, role, kept, eof=1, nseg=3, enc=1 if cut % 2 else 0))
     # REQUESTs for piece indexes at and beyond the piece count, unchoked, writer released afterwards
     for role in ("seed", "leechdone", "iseed", "leech"):
         for idx in (NP, NP + 1, 255, 1 << 16, 1 << 31, 0xFFFFFFFF):
